@@ -21,7 +21,8 @@ func TestVerif(t *testing.T) {
 		ID:    "C01",
 		Level: "model_checking",
 		Rule: "(a) every DAG of the exhaustive family U(n) x every root x every link-closed destination subset x Concurrency x API variant under the default schedule; " +
-			"(b) every curated collision shape x pre-population x Concurrency under every schedule within the deviation bound of three base schedulers; " +
+			"(b) every curated collision shape (plus 'urls-layer': an ordinary layer whose descriptor lists mirror URLs next to a foreign layer) x pre-population x Concurrency under every schedule within the deviation bound of three base schedulers, " +
+			"including Copy with MapRoot / target-platform selection, and Copy into a destination that already holds the graph and whose destination reference already names another manifest of it (the unmapped root, or a manifest below the root); " +
 			"(c) curated shapes x ordered pairs of store kinds (memory, OCI layout, file, remote via Referrers API, remote via tag schema). Oracle: generator's own edge list. " +
 			"non-trivial = distinct (shape, root, pre-population, variant) scenario in which at least one node was actually transferred",
 		Assumptions: []string{
@@ -42,10 +43,18 @@ type scen struct {
 	conc     int
 	api      string // graph | copy | copyref | maproot | platform
 	src, dst string // store kinds
+	pretag   int    // 1+id of the node the destination reference points at before the call (0: not tagged)
 }
 
+// family is the curated family plus the shapes only this harness adds.
+func family() []*DAG { return append(Curated(), Extra("urls-layer")) }
+
 func (s scen) name() string {
-	return fmt.Sprintf("%s/root=%s/prep=%v/conc=%d/%s/%s->%s", s.d.Name, s.d.Nodes[s.root].Name, s.prepop, s.conc, s.api, s.src, s.dst)
+	nm := fmt.Sprintf("%s/root=%s/prep=%v/conc=%d/%s/%s->%s", s.d.Name, s.d.Nodes[s.root].Name, s.prepop, s.conc, s.api, s.src, s.dst)
+	if s.pretag > 0 {
+		nm += "/dst-ref-was=" + s.d.Nodes[s.pretag-1].Name
+	}
+	return nm
 }
 
 var (
@@ -107,7 +116,7 @@ func jobs(tier string) []driver.Job {
 	}
 	// (b) schedule sweep over the curated family
 	D := 2
-	for _, d := range Curated() {
+	for _, d := range family() {
 		root := len(d.Nodes) - 1
 		clo := d.Closure(root, true)
 		preps := [][]int{nil, clo}
@@ -140,6 +149,13 @@ func jobs(tier string) []driver.Job {
 				}
 			}
 		}
+		// the destination reference already points at another manifest of the (fully present) graph
+		for _, x := range clo {
+			if x != root && d.Nodes[x].Kind.IsManifest() {
+				s := scen{d: d, root: root, prepop: clo, conc: 2, api: "copy", src: "memory", dst: "memory", pretag: x + 1}
+				out = append(out, schedJob(s, explore.Bounds{Dev: 1}, []int{0}, 0, 1))
+			}
+		}
 		// root mapping variants
 		if d.Name == "platform" || d.Name == "diamond" || d.Name == "nested-index" {
 			for _, api := range []string{"maproot", "platform"} {
@@ -153,6 +169,17 @@ func jobs(tier string) []driver.Job {
 							s.prepop = d.Closure(r, true)
 						}
 						out = append(out, schedJob(s, explore.Bounds{Dev: 1}, []int{0}, 0, 1))
+						if len(prep) > 0 {
+							// the destination reference already names the unmapped root, or another manifest below it
+							s.pretag = r + 1
+							out = append(out, schedJob(s, explore.Bounds{Dev: 1}, []int{0}, 0, 1))
+							for _, x := range s.prepop {
+								if x != r && d.Nodes[x].Kind.IsManifest() {
+									s.pretag = x + 1
+									out = append(out, schedJob(s, explore.Bounds{Dev: 1}, []int{0}, 0, 1))
+								}
+							}
+						}
 					}
 				}
 			}
@@ -160,7 +187,7 @@ func jobs(tier string) []driver.Job {
 	}
 	// (b') a context that is already cancelled, or cancelled while the root is resolved/mapped:
 	// whatever the call returns, success must still mean a complete copy
-	for _, d := range Curated() {
+	for _, d := range family() {
 		root := len(d.Nodes) - 1
 		for _, api := range []string{"graph-cancelled", "copy-cancelled", "copy-cancel-in-resolve", "copy-cancel-in-maproot"} {
 			s := scen{d: d, root: root, conc: 2, api: api, src: "memory", dst: "memory"}
@@ -169,7 +196,7 @@ func jobs(tier string) []driver.Job {
 	}
 	// (c) pairing sweep
 	kinds := []string{"memory", "oci", "file", "remote-api", "remote-tags"}
-	for _, d := range Curated() {
+	for _, d := range family() {
 		root := len(d.Nodes) - 1
 		for _, sk := range kinds {
 			for _, dk := range kinds {
@@ -230,6 +257,11 @@ func (s scen) make(transferred *bool) (func(), func(*vs.Result) *driver.Fail) {
 	rootDesc := d.Nodes[s.root].Desc
 	if err := srcS.Tag(context.Background(), rootDesc, "ref"); err != nil {
 		panic(err)
+	}
+	if s.pretag > 0 {
+		if err := dstS.Tag(context.Background(), d.Nodes[s.pretag-1].Desc, "ref"); err != nil {
+			panic(err)
+		}
 	}
 	var src oras.ReadOnlyGraphTarget = &SrcTarget{Src: Src{W: w, Inner: srcS}, R: srcS, P: srcS}
 	var dst oras.Target = &Dst{W: w, Inner: dstS}
